@@ -15,11 +15,11 @@ G.skip |= SKIP
 G.used |= SKIP
 comp = Component("generated-sentences-roundtrip",
                  "sentences derived from the compiled rule list of c2profile.lark, coverage-directed until every production has been "
-                 "used, then random; depth <= 8; random white space / comments between tokens; 150 sentences quick / 5000 thorough; "
+                 "used, then random; depth <= 8; random white space / comments between tokens; 300 sentences quick / 5000 thorough; "
                  "checks: tokens(as_text(parse(src))) == tokens(src) and parse(as_text(parse(src))).tree == parse(src).tree")
 c_cov = Component("every-production-used", "the set of grammar productions exercised by the generated batch equals the set of "
                   "productions of the grammar (except the comment_dns_resolver pseudo-statement)")
-N = 150 if TIER == "quick" else 5000
+N = 300 if TIER == "quick" else 5000
 n = 0
 while n < N or (G.all_rule_keys() - G.used and n < N + 400):
     n += 1
